@@ -22,6 +22,9 @@ type Scripted struct {
 	// interface does not promise repeatability). Calls counts the Compute calls.
 	OneShot bool
 	Calls   int32
+	// Stop: the action stream ends after len(Word) actions (the remaining snapshots are consumed
+	// and dropped): a member whose stream is shorter than its siblings'
+	Stop bool
 }
 
 // Name returns the label.
@@ -35,6 +38,12 @@ func (s *Scripted) Compute(c <-chan *asset.Snapshot) <-chan strategy.Action {
 		defer close(out)
 		i := 0
 		for range c {
+			if s.Stop && i >= len(s.Word) {
+				// end the action stream first, then keep consuming (a member that blocked its
+				// siblings by not reading would be the stub's deadlock, not the library's)
+				go helper.Drain(c)
+				return
+			}
 			a := strategy.Hold
 			if i < len(s.Word) {
 				a = s.Word[i]
